@@ -236,7 +236,11 @@ impl Exec for Ex {
             sh.v("C03", "ran-clean-step", msg.clone());
             sh.v("C08", "ran-clean-step", msg.clone());
             if step.deps != 0 {
-                sh.v("C09", "ran-clean-step", msg);
+                sh.v("C09", "ran-clean-step", msg.clone());
+            }
+            if step.regen {
+                // C17: when the manifest is up to date its generator does not run
+                sh.v("C17", "generator-ran-while-clean", msg);
             }
         }
         // C16 slice: output directories exist
